@@ -421,9 +421,32 @@ func (c *stepCtx) stepDecode(k int, st map[string]interface{}) string {
 	us := time.Since(t0).Microseconds()
 	runtime.ReadMemStats(&ms1)
 	inpost := digestBytes(in)
+	alloc := ms1.TotalAlloc - ms0.TotalAlloc
+	if !c.par && pan == nil && (alloc > uint64(2048*len(in)+(512<<10)) || us > 500000) {
+		// The allocation counter is process-wide and the clock is the wall clock, so a figure that looks out of
+		// proportion may belong to something else (a collection, the recorder).  It is measured again - the same
+		// input into a scratch destination - and the smallest figure counts: a cost that belongs to the input is
+		// there every time.
+		for r := 0; r < 2; r++ {
+			scratch := reflect.New(d.rt)
+			in2 := append(make([]byte, 0, len(in)), in...)
+			var a0, a1 runtime.MemStats
+			runtime.ReadMemStats(&a0)
+			t1 := time.Now()
+			callDecode(in2, scratch.Interface())
+			u := time.Since(t1).Microseconds()
+			runtime.ReadMemStats(&a1)
+			if a1.TotalAlloc-a0.TotalAlloc < alloc {
+				alloc = a1.TotalAlloc - a0.TotalAlloc
+			}
+			if u < us {
+				us = u
+			}
+		}
+	}
 	head := fmt.Sprintf(`"ev":"Decode","ty":%q,"in":%s,"dest":%s,"orig":%d,"hops":%d,"obs":{"inpre":%q,"inpost":%q,"alloc":%d,"us":%d,`,
 		ty, jbytes(in), destJSON, num(st, "orig", -1), num(st, "hops", 1), inpre, inpost,
-		c.quiet(clamp(ms1.TotalAlloc-ms0.TotalAlloc)), c.quiet(clamp(uint64(us))))
+		c.quiet(clamp(alloc)), c.quiet(clamp(uint64(us))))
 	if pan != nil {
 		return head + panicObs(pan) + "}"
 	}
